@@ -235,11 +235,46 @@ pub fn load(slot: usize, name: &str, def: Definition, out: &mut Vec<String>) -> 
     Tk { slot, def, tok, name: name.to_string() }
 }
 
+/// Recorded results of external-library calls that differ from what the library returns when called
+/// directly on the same input (the hooks record what kitoken *uses* as the result; if kitoken stops
+/// calling the library, or calls it differently, the record and the library part ways).
+pub static ORACLE_FAILS: std::sync::Mutex<Vec<String>> = std::sync::Mutex::new(Vec::new());
+
+fn library_result(kind: &str, param: &str, input: &[u8]) -> Option<Vec<u8>> {
+    use unicode_normalization::UnicodeNormalization;
+    let text = std::str::from_utf8(input).ok()?;
+    match (kind, param) {
+        ("casefold", "lower") => Some(text.to_lowercase().into_bytes()),
+        ("casefold", "upper") => Some(text.to_uppercase().into_bytes()),
+        ("unicode", "NFC") => Some(text.nfc().collect::<String>().into_bytes()),
+        ("unicode", "NFD") => Some(text.nfd().collect::<String>().into_bytes()),
+        ("unicode", "NFKC") => Some(text.nfkc().collect::<String>().into_bytes()),
+        ("unicode", "NFKD") => Some(text.nfkd().collect::<String>().into_bytes()),
+        _ => None,
+    }
+}
+
 pub fn oracle_words() -> String {
     let calls = kitoken::verif::take();
     let mut seen = std::collections::HashSet::new();
     let mut s = String::new();
     for c in calls {
+        if let Some(lib) = library_result(c.kind, &c.param, &c.input) {
+            if lib != c.output {
+                let line = format!(
+                    "IMPLEQ oracle-integrity {} {} {} :: DIFF library=[{}] recorded=[{}]",
+                    c.kind,
+                    c.param,
+                    hex(&c.input),
+                    hex(&lib),
+                    hex(&c.output)
+                );
+                let mut fails = ORACLE_FAILS.lock().unwrap();
+                if fails.len() < 200 && !fails.contains(&line) {
+                    fails.push(line);
+                }
+            }
+        }
         let w = format!(" ORA:{}:{}:{}:{}", c.kind, hex(c.param.as_bytes()), hex(&c.input), hex(&c.output));
         if seen.insert(w.clone()) {
             s.push_str(&w);
